@@ -313,6 +313,7 @@ def _mk_result(c, name, kind, verdict, info, model=None, trace=None, where=None)
     return {'contract': c.name, 'qual': c.qual, 'obligation': '%s::%s' % (c.name, name), 'kind': kind,
             'verdict': verdict, 'backend': info.get('backend'), 's': round(info.get('s', 0), 4),
             'reason': info.get('reason'), 'model': model, 'trace': trace, 'where': where,
+            'rlimit_used': info.get('rlimit_used'), 'rlimit_cap': info.get('rlimit_cap'),
             'prop': list(c.prop)}
 
 
